@@ -1,3 +1,4 @@
+import Oidc.Proofs.Digest
 import Oidc.Shapes
 import Oidc.Proofs.Strings
 import Oidc.Proofs.Handler2
@@ -56,6 +57,13 @@ theorem callback_error_body (c : Cfg) (e : Env) (r : Req) (v : View) (h : r.qErr
 /-! non-vacuity -/
 example : htmlEscape "<script>alert('x')</script>".toList = "&lt;script&gt;alert(&#39;x&#39;)&lt;/script&gt;".toList := by decide
 example : htmlEscape "a&b\"c".toList = "a&amp;b&#34;c".toList := by decide
+
+/-- which clients get the JSON body: exactly those whose `Accept` header contains `application/json` somewhere (`digest` models
+    `strings.Contains`); without an `Accept` header the HTML page is served -/
+theorem json_clients (q : Oidc.Handler.RawReq) :
+    (Oidc.Handler.digest q).json = true ↔
+      ∃ a b, Oidc.Handler.hdrGet q.hdrs "Accept".toList = a ++ "application/json".toList ++ b :=
+  Oidc.Handler.isInfix_iff _ _
 
 /-! obligation against the regenerated shapes: `sendErrorResponse` still has the steps the model was written against — JSON
     bodies through `encoding/json`, the HTML page through `html.EscapeString` and the pinned template (`Oidc/Shapes.lean`) -/
